@@ -6,11 +6,13 @@ with every Ground-attached frame pre-multiplied by a rigid transform X and gravi
 related by the rotation) and (b) its CONCLUSION on the implementation's results (poses pre-multiplied by X,
 velocities/accelerations rotated, udot, M and KE identical).  Quaternion<->Euler conversion pairs
 (convertToEulerAngles/convertToQuaternions) are compared the same way (identical per-body data and results).
-Reversed-vs-forward and Custom/FunctionBased mirror pairs are NOT covered by this check."""
+Custom/FunctionBased mirror pairs, conversion of the mirrors and reversed-vs-forward pairs are covered by the extension
+checks/C06_mirror.py (theorems coq/C06/C06_mirror.v, probe harness/C06_mirror_probe.cpp), called from run() below."""
 import os, math
 from vlib import *
+import C06_mirror
 
-PROPS = ['Props/Properties_C06.v']
+PROPS = ['Props/Properties_C06.v'] + C06_mirror.PROPS
 
 def mat(v): return [v[0:3], v[3:6], v[6:9]]
 def mv(M, x): return [sum(M[i][j] * x[j] for j in range(3)) for i in range(3)]
@@ -81,8 +83,12 @@ def check_pair(p):
             if not vclose(ra, rb, 1e-7): bad.append('%s differs' % k[0])
     return bad
 
+def replay(ctx, path):
+    C06_mirror.replay(ctx, path)   # handles every pair kind of this check (RELOC, CONV, MIRROR, MCONV, MSELF, REV)
+
 def run(ctx):
     ctx.build_repo()
+    C06_mirror.pre(ctx)            # translator group the C05 development (imported by the reversed theorems) depends on; starts the mirror probe build
     ctx.coq_props(PROPS)
     exe = ctx.bdir('C06_probe')
     if not ctx.cxx(os.path.join(VERIF, 'harness', 'C06_probe.cpp'), exe):
@@ -111,7 +117,8 @@ def run(ctx):
     ctx.cov['rule'] = ('random simbody trees built twice (relocated by a random rigid transform; or state converted between quaternion and Euler coordinates); '
                        'per-body data relation (theorem hypothesis) and result relation (theorem conclusion) checked to 1e-8 relative; '
                        'non-trivial = at least 2 moving bodies; distinct by (pair kind, mobilizer type vector)')
-    ctx.assumptions += ['PARTIAL: reversed-vs-forward and Custom/FunctionBased mirror models are not covered',
+    ctx.assumptions += [
                         'the model operators are tied to the code by C04/C01; this check ties the hypotheses/conclusions of the invariance theorem to the implementation data',
                         'translation of the whole model only changes the shift vectors of Ground-attached bodies, which multiply the zero Ground velocity (checked on data, not a separate theorem)']
+    C06_mirror.run(ctx)            # mirror (Custom/FunctionBased), conversion-of-mirror and reversed pairs
     ctx.finish()
